@@ -41,6 +41,9 @@ type WorkflowNode struct {
 	// installedStatic: the static values an earlier Compile has already handed to the graph
 	// (joined field path -> value); nil until the first ones are installed
 	installedStatic map[string]any
+	// the target path sets accepted so far, as they were declared: the overlap check is replayed on
+	// them once the input type of a pass-through node (and with it the spelling of promoted fields) is known
+	declaredTargets [][]FieldPath
 }
 
 // Workflow is wrapper of graph, replacing AddEdge with declaring dependencies and field mappings between nodes.
@@ -347,6 +350,27 @@ func (n *WorkflowNode) addDependencyRelation(fromNodeKey string, inputs []*Field
 }
 
 func (n *WorkflowNode) checkAndAddMappedPath(paths []FieldPath) error {
+	if err := n.addMappedPaths(paths); err != nil {
+		return err
+	}
+	n.declaredTargets = append(n.declaredTargets, paths)
+	return nil
+}
+
+// recheckMappedPaths replays the overlap check on every target path set declared so far. The paths are
+// compared in the spelling the node's input type gives them (promoted fields): for a pass-through node
+// that type may only have been inferred after some of the paths were checked.
+func (n *WorkflowNode) recheckMappedPaths() error {
+	n.mappedFieldPath = make(map[string]any)
+	for _, paths := range n.declaredTargets {
+		if err := n.addMappedPaths(paths); err != nil {
+			return err
+		}
+	}
+	return nil
+}
+
+func (n *WorkflowNode) addMappedPaths(paths []FieldPath) error {
 	if v, ok := n.mappedFieldPath[""]; ok {
 		if _, ok = v.(struct{}); ok {
 			return fmt.Errorf("entire output has already been mapped for node: %s", n.key)
@@ -586,6 +610,14 @@ func (wf *Workflow[I, O]) compile(ctx context.Context, options *graphCompileOpti
 			}
 		}
 		n.addInputs = nil
+	}
+
+	// every input is declared now, so every pass-through node that can be typed has its type: target
+	// paths that were checked before their node had a type are checked again in their final spelling
+	for _, key := range wf.nodeOrder {
+		if err := wf.workflowNodes[key].recheckMappedPaths(); err != nil {
+			return nil, err
+		}
 	}
 
 	for _, key := range wf.nodeOrder {
